@@ -260,9 +260,13 @@ def judge_length(o, seg, got, e, what):
         o.label("reference:inconclusive")
         return None, None
     tol = max(e, 1e-10 * ref)
+    k = lib.kind_of(seg)
+    if k == "A" and abs(seg.sweep) > 0:
+        # the quadrature reference of a needle-thin ellipse (ratio 1e4 and beyond) is itself good to about
+        # 1e-13 x ratio relative: the speed function has two very sharp minima
+        tol = max(tol, 1e-13 * c02.arc_ratio(seg) * ref)
     if abs(got - ref) <= tol:
         return None, None
-    k = lib.kind_of(seg)
     if k == "A":
         # a scaled-up arc misses its own stored end points (C05's closure gap) and point(t) jumps there: when that
         # jump exceeds the tolerance, "the true length of its geometry" is not defined to within it
@@ -273,7 +277,7 @@ def judge_length(o, seg, got, e, what):
             return None, None
     if subdivision_kind(seg):
         lower = polygon_length(seg) - 1e-9 * max(ref, 1e-3)
-        if lower <= got < ref:
+        if lower <= got < ref + tol:
             return None, "%s.length(error=%g) = %r, true length %r (short by %.3g = %.0f x error)" % (k, e, got, ref, ref - got, (ref - got) / e)
         return o.violation("%s:accuracy:%s:outside-subdivision-envelope" % (what, k), "%s length(error=%g) = %r, true %r, 64-chord polygon %r" % (k, e, got, ref, lower)), None
     return o.violation("%s:accuracy:%s" % (what, k), "%s length(error=%g) = %r, true length %r (off by %.3g)" % (k, e, got, ref, got - ref)), None
